@@ -286,6 +286,20 @@ func All() []Driver {
 			}
 			return strings.Join(out, "\n")
 		}})
+	// D12: a splat over a constant collection evaluated with a nil EvalContext by every goroutine
+	// (each evaluation has to get its own placeholder context)
+	for _, th := range []int{2, 3} {
+		th := th
+		ds = append(ds, Driver{Name: fmt.Sprintf("D12-nil-context-%d", th), Doc: "constant splats evaluated with a nil EvalContext: [{id=1},{id=2},{id=3}][*].id, nested and attribute forms", Threads: th,
+			Setup: func() any {
+				return mustExpr(`[[{id = 1}, {id = 2}, {id = 3}][*].id, [[{b = 1}], [{b = 2}]][*][*].b]`)
+			},
+			Thread: func(shared any, i int) string {
+				e := shared.(hclsyntax.Expression)
+				v, diags := e.Value(nil)
+				return show(v, diags)
+			}})
+	}
 	// D6: contexts that are children of one shared parent
 	ds = append(ds, Driver{Name: "D6-shared-parent-3", Doc: "child contexts of one shared parent context: l[*].a + n", Threads: 3,
 		Setup: func() any {
@@ -342,7 +356,7 @@ func All() []Driver {
 	)
 	for i := range ds {
 		d := &ds[i]
-		body := strings.HasPrefix(d.Name, "D8") || strings.HasPrefix(d.Name, "D9") || strings.HasPrefix(d.Name, "D11")
+		body := strings.HasPrefix(d.Name, "D8-") || strings.HasPrefix(d.Name, "D9-") || strings.HasPrefix(d.Name, "D11-")
 		if d.Points == "" {
 			d.Points = "all"
 			if body {
@@ -355,7 +369,7 @@ func All() []Driver {
 				d.QuickBound, d.ThoroughBound = 1, 2
 			case d.Threads == 2:
 				d.QuickBound, d.ThoroughBound = 2, 3
-			case strings.HasPrefix(d.Name, "D1") || strings.HasPrefix(d.Name, "D3"):
+			case strings.HasPrefix(d.Name, "D1-") || strings.HasPrefix(d.Name, "D3-"):
 				d.QuickBound, d.ThoroughBound = 2, 2
 			default:
 				d.QuickBound, d.ThoroughBound = 1, 2
